@@ -504,12 +504,14 @@ func checkC09(c *Ctx) {
 	n = 0
 	for _, fs := range fieldStores(shipped, G, "Request", "conn") {
 		n++
-		inShutdownLit := fs.Fn == m.serve // the hand-built disconnection notice request
+		// the hand-built disconnection notice request: a fresh composite literal in a method of *conn
+		_, fresh := an.Strip(fs.Base).(*ssa.Alloc)
+		inShutdownLit := fs.Fn == m.serve || (fresh && fs.Fn.Signature.Recv() != nil && len(fs.Fn.Params) > 0 && ptrNamed(fs.Fn.Params[0].Type()) == "conn")
 		switch {
 		case fs.Fn == newRequest:
 			R.Check(an.Strip(fs.Store.Val) == ssa.Value(newRequest.Params[1]), "C09-immutable", "newRequest: store Request.conn", c.pos(fs.Store), "from parameter c", "Request.conn is not newRequest's conn parameter")
 		case inShutdownLit:
-			R.Check(an.Strip(fs.Store.Val) == ssa.Value(m.serve.Params[0]), "C09-immutable", "(*conn).serveRequests: store Request.conn", c.pos(fs.Store), "hand-built notice request carries the receiver conn", "Request.conn of the hand-built request is not the receiver")
+			R.Check(an.Strip(fs.Store.Val) == ssa.Value(fs.Fn.Params[0]), "C09-immutable", fname(fs.Fn)+": store Request.conn", c.pos(fs.Store), "hand-built notice request carries the receiver conn", "Request.conn of the hand-built request is not the receiver")
 		default:
 			R.Fail("C09-immutable", fname(fs.Fn)+": store Request.conn", c.pos(fs.Store), "Request.conn is written outside newRequest")
 		}
